@@ -63,7 +63,10 @@ func PointHook(s *vsched.Sched) {
 }
 
 func put(key, val string) *proto.WriteRequest {
-	return &proto.WriteRequest{Shard: i64p(Shard), Puts: []*proto.PutRequest{{Key: key, Value: []byte(val)}}}
+	// every record also declares a secondary-index entry, so that the state compared by the fold
+	// oracle includes what the index callbacks write on each application route
+	return &proto.WriteRequest{Shard: i64p(Shard), Puts: []*proto.PutRequest{{Key: key, Value: []byte(val),
+		SecondaryIndexes: []*proto.SecondaryIndex{{IndexName: "byval", SecondaryKey: val}}}}}
 }
 
 // Body builds the harness body of a cluster scenario.
